@@ -32,15 +32,16 @@ from sim.core import runner
 
 WATCH = (os.path.join(runner.REPO, 'clastic') + os.sep, '<sinter')
 
-ROUTES = ['ok', 'stream', 'ctx', 'static-small', 'static-big', 'static-missing', 'static-oddtime', 'static-oddtime', 'reroute-branch', 'reroute-branch-noslash', 'reroute-branch-dslash', 'branch', 'missing', 'm405', 'boom',
+ROUTES = ['ok', 'stream', 'ctx', 'static-small', 'static-big', 'static-missing', 'static-oddtime', 'static-oddtime', 'reroute-branch', 'reroute-branch-noslash', 'reroute-branch-dslash', 'reroute-app', 'reroute-app', 'branch', 'missing', 'm405', 'boom',
           'http403', 'meta', 'meta-json', 'gz', 'cache', 'reroute-raise', 'reroute-ep', 'sub-ok', 'empty', 'bytes-big']
 PATH = {'ok': '/ok', 'stream': '/stream', 'ctx': '/ctx', 'static-small': '/s/a.txt', 'static-big': '/s/big.bin',
         'static-missing': '/s/nope', 'static-oddtime': '/s/odd.txt', 'reroute-branch': '/rb/', 'reroute-branch-noslash': '/rb',
-        'reroute-branch-dslash': '/rb//', 'branch': '/b', 'missing': '/missing', 'm405': '/g', 'boom': '/boom',
+        'reroute-branch-dslash': '/rb//', 'reroute-app': '/r3/some/path', 'branch': '/b', 'missing': '/missing', 'm405': '/g', 'boom': '/boom',
         'http403': '/forbidden', 'meta': '/meta/', 'meta-json': '/meta/json/', 'gz': '/gz', 'cache': '/cache',
         'reroute-raise': '/rr', 'reroute-ep': '/r2', 'sub-ok': '/in/x', 'empty': '/empty', 'bytes-big': '/big'}
 METHODS = ['GET', 'GET', 'HEAD', 'POST', 'OPTIONS']
-HEADER_SETS = [{}, {'Accept': 'text/html'}, {'Accept': 'application/json'}, {'Accept-Encoding': 'gzip'},
+HEADER_SETS = [{'If-Modified-Since': 'Fri, 01 Jan 2100 00:00:00 GMT'}, {'If-Modified-Since': 'Thu, 01 Jan 1970 00:00:10 GMT'},
+               {}, {'Accept': 'text/html'}, {'Accept': 'application/json'}, {'Accept-Encoding': 'gzip'},
                {'Accept-Encoding': 'gzip', 'Accept': 'text/html'}, {'If-None-Match': '"x"'},
                {'Accept': '*/*', 'User-Agent': 'sim/1.0', 'X-Forwarded-For': '10.1.1.1'}]
 
@@ -86,6 +87,10 @@ class Target(object):
 
     def __init__(self):
         self.seen = []
+        self.app_seen = []
+        # a reroute target that is itself a clastic Application WITH a WSGI wrapper of its own
+        self.inner_app = Application([('/<anything*>', lambda: Response('inner-application', mimetype='text/x-inner'))],
+                                     middlewares=[TargetWrapperMW(self.app_seen)])
 
     def __call__(self, environ, start_response):
         self.seen.append(environ)
@@ -93,6 +98,22 @@ class Target(object):
         if environ['REQUEST_METHOD'] == 'HEAD':
             return []
         return [b'from-', b'target']
+
+
+class TargetWrapperMW(Middleware):
+    """WSGI wrapper of the reroute TARGET application: marks the response and records the environ it was given."""
+
+    def __init__(self, seen):
+        self.seen = seen
+
+    def wsgi_wrapper(self, inner):
+        def wrapped(environ, start_response):
+            self.seen.append(environ)
+
+            def sr(status, headers, exc_info=None):
+                return start_response(status, list(headers) + [('X-Target-Wrapper', 'yes')])
+            return inner(environ, sr)
+        return wrapped
 
 
 class C13(Check):
@@ -122,7 +143,7 @@ class C13(Check):
     level_text = ('Seeded search over server behaviours x response kinds x wrapper stacks with a protocol monitor; the '
                   'route-kind x method x consumption x file-wrapper grid is swept once per run for a sampled wrapper stack.')
     level_note = 'Trusted: wsgiref.validate as the reading of PEP 3333; the monitor in sim/core/gateway.py.'
-    required_probes = ('reroute-through-rewritten-path', 'first-requests-concurrent', 'file-released-after-abort', 'file-released-without-iteration', 'head-no-body', 'reroute-same-environ',
+    required_probes = ('reroute-to-wrapped-application', 'conditional-static-304', 'reroute-through-rewritten-path', 'first-requests-concurrent', 'file-released-after-abort', 'file-released-without-iteration', 'head-no-body', 'reroute-same-environ',
                        'custom-file-wrapper-used', 'debug-500', 'gzip-applied')
 
     def generate(self, seed, tier):
@@ -225,7 +246,8 @@ class C13(Check):
                   ('/b/', ok), GET('/g', ok), ('/boom', boom), ('/forbidden', forbidden), ('/meta/', MetaApplication()),
                   Route('/gz', compressible, middlewares=[GzipMiddleware()]),
                   Route('/cache', ok, middlewares=[HTTPCacheMiddleware()]),
-                  ('/rr', rr), ('/r2', RerouteWSGI(target)), ('/rb/', RerouteWSGI(target)), ('/in', inner), ('/empty', empty), ('/big', big),
+                  ('/rr', rr), ('/r2', RerouteWSGI(target)), ('/rb/', RerouteWSGI(target)),
+                  ('/r3/<rest*>', RerouteWSGI(target.inner_app)), ('/in', inner), ('/empty', empty), ('/big', big),
                   ('/in2', Application([('/y', ok)], middlewares=objs('t', cfg.get('sib_wrappers', []))))]
         return Application(routes, middlewares=objs('o', cfg['outer_wrappers']), debug=cfg['debug'],
                            slash_mode=cfg.get('slash', 'redirect'))
@@ -374,6 +396,16 @@ class C13(Check):
             if ex.code != want:
                 res.violate(K + 'status-%s-not-%s@%s' % (ex.code, want, route), ctx + ' -> %s (slash mode %s)' % (ex.status, mode), step)
             return
+        if route == 'reroute-app':
+            # the target application's own WSGI wrapper must have run, on the very same environ
+            if not target.app_seen or target.app_seen[-1] is not env:
+                res.violate(K + 'reroute-target-app-not-called-as-wsgi', ctx + ' -> the target application\'s WSGI wrapper never saw this environ', step)
+                return
+            if ex.header('X-Target-Wrapper') != 'yes' or ex.code != 200 or (op['consume'] == 'drain' and method != 'HEAD' and ex.body != b'inner-application'):
+                res.violate(K + 'reroute-response-not-verbatim', ctx + ' -> %r %r %r' % (ex.status, ex.headers, ex.body[:40]), step)
+                return
+            res.probe('reroute-to-wrapped-application')
+            return
         if route.startswith('reroute'):
             if mode == 'rewrite' and route != 'reroute-branch':
                 res.probe('reroute-through-rewritten-path')
@@ -401,6 +433,9 @@ class C13(Check):
                   'branch': 302, 'missing': 404, 'boom': 500, 'http403': 403, 'meta': 200, 'meta-json': 200, 'gz': 200,
                   'cache': 200, 'sub-ok': 200, 'empty': 200, 'bytes-big': 200}
         want = expect.get(route)
+        if 'If-Modified-Since' in op['headers'] and route.startswith('static') and ex.code == 304:
+            res.probe('conditional-static-304')
+            want = None
         if route == 'branch':
             want = {'redirect': 302, 'rewrite': 200, 'strict': 404}[mode]
         if route in ('meta', 'meta-json', 'static-small', 'static-big', 'static-missing', 'static-oddtime', 'sub-ok') and mode == 'strict':
